@@ -28,7 +28,7 @@ man = {
     'engines': [{'name': 'lean4-proof', 'path': 'lean/', 'serves_properties': [c['property_id'] for c in checks],
                  'kind_free_text': 'Lean 4 theorems about an executable model; model data regenerated from the Rust source by translate/extract.py; control flow tied by a differential correspondence (harness/ vs lean/Driver)'}],
     'checks': checks,
-    'notes': 'Properties are claimed one at a time as their model, theorems and correspondence land; see DESIGN.md.',
+    'notes': 'All seventeen properties are claimed (Lean 4 proof + translator / correspondence tie); C08 and C15 with an explicitly partial scope stated in their text. See DESIGN.md section 0.',
     'not_applicable': [{'property_id': p, 'reason': NOT_CLAIMED.get(p, 'not yet claimed: model/theorems for this property are still being built (DESIGN.md §6); to be decided by the same Lean-proof technique')}
                        for p in ALL if p not in CLAIMS],
 }
